@@ -157,17 +157,11 @@ def registry(chk, P):
 
 
 def fs_duplicates(chk, P):
-    from .c04 import _fs_rows, _PFB
-    I = W.make_interp(P)
-    ci = P.cls("atsim.potentials.config._eam_potential_builder", "EAM_Potential_Builder_FS")
-    b = InstV(ci)
-    rows = _fs_rows(P, I, [("Fe", "Al"), ("Al", "Fe"), ("Fe", "Al")])
-    cfg = P.cls("atsim.potentials.config._common", "ConfigurationException")
-    try:
-        W.run_method(I, b, "_density_to_potential_form_dict", [rows, PyObjV(_PFB())])
-        out = "accepted"
-    except RaiseSignal as e:
-        out = e.exc
-    ok = isinstance(out, ExcV) and isinstance(out.cls, ClassV) and out.cls.ci.is_subclass_of(cfg)
-    chk.ob("C20.O4", "a repeated Fe->Al density (after an Al->Fe one) is a configuration error", ok,
-           site=ci.site_of("_density_to_potential_form_dict"), found=out, expect="ConfigurationException", key="C20.O4|fs-repeat")
+    from .. import eamrules as E
+    ci = P.cls(E.BUILDER_MOD, "EAM_Potential_Builder_FS")
+    o = E.build(P, W.make_interp, True, [("Fe", W.param("F_Fe")), ("Al", W.param("F_Al"))],
+                [(("Fe", "Al"), W.param("d1")), (("Al", "Fe"), W.param("d2")), (("Fe", "Al"), W.param("d3"))])
+    out = o[2] if o[1] == "raise" else "accepted"
+    chk.ob("C20.O4", "a repeated Fe->Al density (after an Al->Fe one) is a configuration error", o[1] == "raise" and E.is_config_error(P, o[2]),
+           site=ci.lookup("eam_potentials").site(), found=out, expect="ConfigurationException", key="C20.O4|fs-repeat")
+
